@@ -39,8 +39,6 @@ GROUPS = {
     'D': [('bid128_noncomp.rs', 'bid128_total_order'), ('bid128_noncomp.rs', 'bid128_total_order_mag'),
           ('bid128_scalbln.rs', 'bid128_scalbln')],
     'E': [('bid_dpd.rs', 'bid_to_dpd128'), ('bid_dpd.rs', 'bid_dpd_to_bid128')],
-    # T: the two total-order routines alone (C18 does not need the pack routine that the concrete bid128_scalbln of group D pulls in)
-    'T': [('bid128_noncomp.rs', 'bid128_total_order'), ('bid128_noncomp.rs', 'bid128_total_order_mag')],
     'F': [('bid_internal.rs', 'bid_get_BID128'), ('bid128_scalbn.rs', 'bid128_scalbn'), ('bid128_ldexp.rs', 'bid128_ldexp')],
     # G: comparison predicates (Impl/ImplCmp.v, Impl/ImplCmpProofs.v). The three multiplication helpers are requested by name so
     # that ImplMul.v / ImplCmp.v find them in ImplGen.v whichever comparison routines translate. bid128_quiet_equal and
@@ -52,6 +50,10 @@ GROUPS = {
         'bid128_quiet_ordered', 'bid128_quiet_unordered', 'bid128_signaling_greater', 'bid128_signaling_greater_equal',
         'bid128_signaling_greater_unordered', 'bid128_signaling_less', 'bid128_signaling_less_equal',
         'bid128_signaling_less_unordered', 'bid128_signaling_not_greater', 'bid128_signaling_not_less')],
+    # T: the two total-order routines alone (C18 does not need the pack routine that the concrete bid128_scalbln of group D pulls in)
+    'T': [('bid128_noncomp.rs', 'bid128_total_order'), ('bid128_noncomp.rs', 'bid128_total_order_mag')],
+    # I: further single routines with a complete theorem (templates for their families)
+    'I': [('bid128_frexp.rs', 'bid128_frexp')],
     # H: the shared multi-word helpers of bid_internal.rs on their own (Impl/ImplHelpProofs.v: "helper <name> is exact")
     'H': [('bid_internal.rs', n) for n in HELPERS],
 }
